@@ -122,6 +122,13 @@ def main():
         if not ok:
             proof_ok = False
             out_p = raw
+    rechecked = None
+    if proof_ok and tier == 'thorough':
+        ok_lc, n_lc, out_lc = common.leanchecker(pid)
+        rechecked = n_lc if ok_lc else 0
+        if not ok_lc:
+            proof_ok = False
+            out_p = 'leanchecker: ' + out_lc
     if not proof_ok:
         broken.append({'kind': 'proof', 'target': target, 'errors': first_errors(out_p)})
     discharged = []
@@ -205,6 +212,7 @@ def main():
             'hand-written Cirbo/Model/* tied to /repo only by the correspondence run below (tested, not proved)',
             'Lean compiler/runtime for the compiled driver cirbo_model (correspondence and search only)',
         ] + list(getattr(mod, 'TRUSTED', [])),
+        'leanchecker_modules_rechecked': rechecked,
         'theorems': obligations,
         'theorems_discharged': discharged,
         'axioms_seen': sorted({a for v in axioms.values() for a in v}),
